@@ -246,6 +246,12 @@ def check_lock_order(rep, fl, rule="R20.4"):
                         for c2 in ls.acquires(clb):
                             for a in held:
                                 edges.setdefault((a, c2), []).append((b, tt))
+                        # what the closure does may happen under the callee's locks: blocking calls and user hooks too
+                        for a in sorted(held):
+                            for bb2, n in ls.reach_calls(clb, BLOCKING):
+                                rep.bad("R10.5", fl, b, "blocking %s under %s lock" % (n, a), "%s (in the closure handed to %s) can block while the %s lock is held" % (n, short(cb.spath), a), loc=tt["sp"])
+                            for bb2, n in ls.reach_calls(clb, USER_CALLBACKS):
+                                _user(rep, fl, b, tt, n, a, via=clb)
     # report the graph
     classes = sorted({a for a, _ in edges} | {b_ for _, b_ in edges})
     graph = {}
